@@ -56,9 +56,19 @@ type SPlan struct {
 	Stall      bool     `json:"stall,omitempty"`       // the consumer never reads (bounded-blocking clause)
 }
 
+// WidePlan adds one writer whose frames carry N (>= 128) series on virtual channels, with a
+// higher-authority holder on some of them: the writer is authorised on part of every frame
+// only. Frames of 128 or more series take the unmasked code paths of telem.Frame.
+type WidePlan struct {
+	N      int   `json:"n"`
+	Held   []int `json:"held"` // indices of the channels held by the higher-authority writer
+	Frames int   `json:"frames"`
+}
+
 type Plan struct {
-	Writers   []WPlan `json:"writers"`
-	Streamers []SPlan `json:"streamers"`
+	Wide      *WidePlan `json:"wide,omitempty"`
+	Writers   []WPlan   `json:"writers"`
+	Streamers []SPlan   `json:"streamers"`
 	// Production20ms uses the production slow-consumer timeout (only the blocking and
 	// ordering clauses apply then); otherwise the timeout is raised to 60 s.
 	Production20ms bool `json:"production_20ms,omitempty"`
@@ -103,6 +113,9 @@ func genPlan(t *rapid.T) Plan {
 		case 0:
 			s.ResubAfter = rapid.IntRange(1, p.Writers[0].Frames).Draw(t, "resub_after")
 			s.NewKeys = subset("newsub")
+			if rapid.IntRange(0, 3).Draw(t, "resub_empty") == 0 {
+				s.NewKeys = []uint32{} // re-subscribe to nothing
+			}
 		case 1:
 			s.EarlyAfter = rapid.IntRange(1, p.Writers[0].Frames).Draw(t, "early_after")
 		case 2:
@@ -112,8 +125,26 @@ func genPlan(t *rapid.T) Plan {
 		}
 		p.Streamers = append(p.Streamers, s)
 	}
+	if rapid.IntRange(0, 6).Draw(t, "wide") == 0 {
+		w := &WidePlan{N: rapid.IntRange(128, 140).Draw(t, "wide_n"), Frames: rapid.IntRange(1, 8).Draw(t, "wide_frames")}
+		nh := rapid.SampledFrom([]int{1, 2, 3, 5, 64, 120}).Draw(t, "wide_nheld")
+		perm := rapid.Permutation(seqInts(w.N)).Draw(t, "wide_perm")
+		w.Held = append(w.Held, perm[:nh]...)
+		sort.Ints(w.Held)
+		p.Wide = w
+	}
 	return p
 }
+
+func seqInts(n int) []int {
+	out := make([]int, n)
+	for i := range out {
+		out[i] = i
+	}
+	return out
+}
+
+const wideBase = 5000
 
 const contenderOffset = 1_000_000
 
@@ -243,7 +274,7 @@ func run(p Plan, rep *kit.Report) (err error) {
 		werrMu.Unlock()
 	}
 	yes := true
-	sent := make([]int, len(p.Writers)) // frames whose Write returned, per writer
+	sent := make([]int, len(p.Writers))             // frames whose Write returned, per writer
 	started := make([]atomic.Int64, len(p.Writers)) // frames whose Write call has begun, per writer
 	for wi, wp := range p.Writers {
 		mode := cesium.WriterModePersistStream
@@ -332,6 +363,89 @@ func run(p Plan, rep *kit.Report) (err error) {
 				}
 			}
 		}(wi, wp, w, cw)
+	}
+	// ---- wide writer: frames of >= 128 series, authorised on part of them only
+	var wideGot *recv
+	var wideStop func()
+	if p.Wide != nil {
+		rep.Class("wide-frames")
+		held := map[uint32]bool{}
+		var all, heldKeys []uint32
+		for i := 0; i < p.Wide.N; i++ {
+			k := uint32(wideBase + i)
+			all = append(all, k)
+			if cerr := db.CreateChannel(ctx, cesium.Channel{Key: k, Name: fmt.Sprint("v", k), DataType: telem.Int64T, Virtual: true}); cerr != nil {
+				return kit.Fail("setup", "create virtual channel: %v", cerr)
+			}
+		}
+		for _, i := range p.Wide.Held {
+			held[uint32(wideBase+i)] = true
+			heldKeys = append(heldKeys, uint32(wideBase+i))
+		}
+		hw, herr := db.OpenWriter(ctx, cesium.WriterConfig{Channels: heldKeys, Start: telem.TimeStamp(1), Mode: cesium.WriterModeStreamOnly, Sync: &yes,
+			Authorities: []xcontrol.Authority{250}, ControlSubject: xcontrol.Subject{Key: "wide-holder"}})
+		if herr != nil {
+			return kit.Fail("setup", "OpenWriter(wide holder): %v", herr)
+		}
+		ww, werr2 := db.OpenWriter(ctx, cesium.WriterConfig{Channels: all, Start: telem.TimeStamp(1), Mode: cesium.WriterModeStreamOnly, Sync: &yes,
+			Authorities: []xcontrol.Authority{200}, ControlSubject: xcontrol.Subject{Key: "wide-writer"}})
+		if werr2 != nil {
+			_ = hw.Close()
+			return kit.Fail("setup", "OpenWriter(wide): %v", werr2)
+		}
+		wst, serr := db.NewStreamer(ctx, cesium.StreamerConfig{Channels: all, SendOpenAck: true})
+		if serr != nil {
+			return kit.Fail("setup", "NewStreamer(wide): %v", serr)
+		}
+		win := confluence.NewStream[cesium.StreamerRequest](0)
+		wout := confluence.NewStream[cesium.StreamerResponse](1)
+		wst.InFrom(win)
+		wst.OutTo(wout)
+		wctx, wcancel := signal.Isolated()
+		wst.Flow(wctx, confluence.CloseOutputInletsOnExit())
+		select {
+		case <-wout.Outlet():
+		case <-time.After(60 * time.Second):
+			return kit.Fail("stall-open-ack", "wide streamer did not acknowledge opening within 60 s")
+		}
+		wideGot = &recv{}
+		wdone := make(chan struct{})
+		go func() {
+			defer close(wdone)
+			for r := range wout.Outlet() {
+				wideGot.mu.Lock()
+				wideGot.frames = append(wideGot.frames, r.Frame)
+				wideGot.mu.Unlock()
+				wideGot.count.Add(1)
+			}
+		}()
+		wideStop = func() {
+			win.Close()
+			_ = wctx.Wait()
+			wcancel()
+			<-wdone
+		}
+		wg.Add(1)
+		go func() {
+			defer wg.Done()
+			for f := 0; f < p.Wide.Frames; f++ {
+				series := make([]telem.Series, len(all))
+				for i := range all {
+					series[i] = telem.NewSeriesV(int64(f)*1000 + int64(i))
+				}
+				if _, e := ww.Write(telem.MultiFrame(all, series)); e != nil {
+					fail(kit.Fail("writer-error", "wide writer frame %d: %v", f, e))
+					return
+				}
+			}
+			if e := ww.Close(); e != nil {
+				fail(kit.Fail("writer-close", "wide writer close: %v", e))
+			}
+			if e := hw.Close(); e != nil {
+				fail(kit.Fail("writer-close", "wide holder close: %v", e))
+			}
+		}()
+		_ = held
 	}
 	// ---- mid-run streamer actions, keyed on writer 0's progress
 	var awg sync.WaitGroup
@@ -448,6 +562,51 @@ func run(p Plan, rep *kit.Report) (err error) {
 				time.Sleep(time.Millisecond)
 			}
 		}
+	}
+	// ---- wide frames: every frame received carries exactly the series the writer was
+	// authorised on, with that frame's values; with the raised timeout all frames arrive
+	if p.Wide != nil {
+		if !p.Production20ms {
+			deadline := time.Now().Add(30 * time.Second)
+			for wideGot.count.Load() < int64(p.Wide.Frames) && time.Now().Before(deadline) {
+				time.Sleep(time.Millisecond)
+			}
+		}
+		wideStop()
+		held := map[int]bool{}
+		for _, i := range p.Wide.Held {
+			held[i] = true
+		}
+		if got := int(wideGot.count.Load()); !p.Production20ms && got != p.Wide.Frames {
+			return kit.Fail("missing-frames", "the streamer subscribed to the %d channels of the wide writer received %d of its %d frames (always ready, slow-consumer timeout 60 s)", p.Wide.N, got, p.Wide.Frames)
+		}
+		prevF := int64(-1)
+		for _, fr := range wideGot.frames {
+			n, fnum := 0, int64(-1)
+			for k, sr := range fr.Entries() {
+				i := int(k) - wideBase
+				if i < 0 || i >= p.Wide.N || len(sr.Data) != 8 {
+					return kit.Fail("unsubscribed-key", "wide streamer received an unexpected series for channel %d (%d bytes)", k, len(sr.Data))
+				}
+				if held[i] {
+					return kit.Fail("unauthorised-series-relayed", "wide streamer received a series for channel %d, on which the writer was not authorised", k)
+				}
+				v := int64(binary.LittleEndian.Uint64(sr.Data))
+				if fnum >= 0 && v/1000 != fnum || v%1000 != int64(i) {
+					return kit.Fail("wide-frame-mixed", "wide streamer: series of channel %d carries value %d inside frame %d", k, v, fnum)
+				}
+				fnum = v / 1000
+				n++
+			}
+			if want := p.Wide.N - len(p.Wide.Held); n != want {
+				return kit.Fail("authorised-series-dropped", "wide streamer: frame %d of the wide writer arrived with %d series; the writer was authorised on %d of its %d channels (%d held by a higher authority)", fnum, n, want, p.Wide.N, len(p.Wide.Held))
+			}
+			if fnum <= prevF {
+				return kit.Fail("reordered", "wide streamer: frame %d arrived after frame %d", fnum, prevF)
+			}
+			prevF = fnum
+		}
+		rep.Class("wide-frames-checked")
 	}
 	// ---- disconnect everything, close the DB
 	for _, st := range ss {
